@@ -269,6 +269,179 @@ def _cat_order(fn):
     return "[" + ", ".join(f'"{n}"' for n in names) + "]"
 
 
+# =================================================================================================
+# call sites of the coil operators under direct/ (structural table `coil_sites`)
+_SKIP_FILES = {"direct/data/transforms.py"}
+_COIL_ATTRS = ("_coil_dim", "coil_dim")
+
+
+def _lean_str(s: str) -> str:
+    return '"' + s.replace("\\", "\\\\").replace('"', '\\"').replace("\n", " ") + '"'
+
+
+def _dim_form(node):
+    """-> (constructor text, python-side tuple)"""
+    if node is None:
+        return ".omitted", ("omitted", None)
+    if isinstance(node, ast.Attribute) and isinstance(node.value, ast.Name) and node.value.id == "self":
+        return f".attr {_lean_str(node.attr)}", ("attr", node.attr)
+    if isinstance(node, ast.Name):
+        return f".name {_lean_str(node.id)}", ("name", node.id)
+    v = None
+    try:
+        v = ast.literal_eval(node)
+    except Exception:  # noqa: BLE001
+        pass
+    if isinstance(v, int) and not isinstance(v, bool):
+        return f".lit ({v})", ("lit", v)
+    return f".other {_lean_str(ast.unparse(node)[:80])}", ("other", ast.unparse(node)[:80])
+
+
+def _call_name(call: ast.Call) -> str:
+    f = call.func
+    if isinstance(f, ast.Name):
+        return f.id
+    if isinstance(f, ast.Attribute) and isinstance(f.value, ast.Name) and f.value.id in ("T", "transforms"):
+        return f.attr
+    return ""
+
+
+def _meth_name(call) -> str:
+    return call.func.attr if isinstance(call, ast.Call) and isinstance(call.func, ast.Attribute) else ""
+
+
+def _arg(call: ast.Call, pos: int, kw: str):
+    if len(call.args) > pos:
+        return call.args[pos]
+    return next((k.value for k in call.keywords if k.arg == kw), None)
+
+
+def _class_declared(cls: ast.ClassDef):
+    """literal value of `self._coil_dim` / `self.coil_dim` (also via a constructor parameter's literal default)"""
+    found = {}
+    for fn in [n for n in cls.body if isinstance(n, ast.FunctionDef)]:
+        a = fn.args
+        pos = a.posonlyargs + a.args
+        defaults = {arg.arg: d for arg, d in zip(pos[len(pos) - len(a.defaults):], a.defaults)}
+        defaults.update({arg.arg: d for arg, d in zip(a.kwonlyargs, a.kw_defaults) if d is not None})
+        for n in ast.walk(fn):
+            if isinstance(n, ast.Assign) and len(n.targets) == 1 and isinstance(n.targets[0], ast.Attribute) \
+                    and isinstance(n.targets[0].value, ast.Name) and n.targets[0].value.id == "self" and n.targets[0].attr in _COIL_ATTRS:
+                v = n.value
+                if isinstance(v, ast.Name) and v.id in defaults:
+                    v = defaults[v.id]
+                try:
+                    lit = ast.literal_eval(v)
+                    if isinstance(lit, int) and not isinstance(lit, bool):
+                        found[n.targets[0].attr] = lit
+                except Exception:  # noqa: BLE001
+                    pass
+    for a in _COIL_ATTRS:
+        if a in found:
+            return found[a]
+    return None
+
+
+def scan_coil_sites(repo) -> list[dict]:
+    """every call of reduce_operator / expand_operator / root_sum_of_squares and every inline re-implementation under direct/
+    (transforms.py itself excluded), in file / source order.  Rows carry the AST node (`node`) for the oracle."""
+    rows = []
+    for py in sorted((repo / "direct").rglob("*.py")):
+        rel = str(py.relative_to(repo))
+        if rel in _SKIP_FILES:
+            continue
+        try:
+            import warnings
+            with warnings.catch_warnings():
+                warnings.simplefilter("ignore")
+                tree = ast.parse(py.read_text())
+        except (OSError, SyntaxError) as e:
+            raise Untranslatable(f"{rel}: {e}")
+        local_defs = {n.name for n in tree.body if isinstance(n, ast.FunctionDef)}
+        parents = {}
+        for node in ast.walk(tree):
+            for ch in ast.iter_child_nodes(node):
+                parents[ch] = node
+        units = []      # (qualified name, function node, class node | None)
+        for n in tree.body:
+            if isinstance(n, ast.FunctionDef):
+                units.append((n.name, n, None))
+            elif isinstance(n, ast.ClassDef):
+                units.extend((f"{n.name}.{m.name}", m, n) for m in n.body if isinstance(m, ast.FunctionDef))
+        for qual, fn, cls in units:
+            declared = _class_declared(cls) if cls is not None else None
+            calls = sorted((n for n in ast.walk(fn) if isinstance(n, ast.Call)), key=lambda n: (n.lineno, n.col_offset))
+            for call in calls:
+                nm = _call_name(call)
+                row = None
+                if nm in ("reduce_operator", "expand_operator") and nm not in local_defs:
+                    row = dict(kind="reduceCall" if nm == "reduce_operator" else "expandCall", dim=_arg(call, 2, "dim"))
+                elif nm == "root_sum_of_squares" and nm not in local_defs:
+                    row = dict(kind="rssCall", dim=_arg(call, 1, "dim"))
+                elif nm == "complex_multiplication" and len(call.args) == 2 and not call.keywords:
+                    a = list(call.args)
+                    is_conj = [isinstance(x, ast.Call) and _call_name(x) == "conjugate" and len(x.args) == 1 for x in a]
+                    is_unsq = [_meth_name(x) == "unsqueeze" for x in a]
+                    conj_unsq = [is_unsq[i] and isinstance(a[i].func.value, ast.Call) and _call_name(a[i].func.value) == "conjugate" for i in (0, 1)]
+                    if sum(conj_unsq) == 1:
+                        i = conj_unsq.index(True)
+                        row = dict(kind="sensGrad", dim=_arg(a[i], 0, "dim"), conj=ast.unparse(a[i].func.value.args[0]), other=ast.unparse(a[1 - i]))
+                    elif sum(is_conj) == 1:
+                        i = is_conj.index(True)
+                        dnode, summed = _summed_dim(call, parents)
+                        row = dict(kind="inlineReduce" if summed else "conjProduct", dim=dnode, conj=ast.unparse(a[i].args[0]),
+                                   other=ast.unparse(a[1 - i]), conj_index=i)
+                    elif sum(is_unsq) == 1:
+                        i = is_unsq.index(True)
+                        row = dict(kind="inlineExpand", dim=_arg(a[i], 0, "dim"), unsq=ast.unparse(a[i].func.value), other=ast.unparse(a[1 - i]),
+                                   unsq_index=i)
+                elif _meth_name(call) == "sum" and _meth_name(call.func.value) == "sum":
+                    inner = call.func.value
+                    base = inner.func.value
+                    if isinstance(base, ast.BinOp) and isinstance(base.op, ast.Pow) and isinstance(base.right, ast.Constant) and base.right.value == 2:
+                        row = dict(kind="inlineRss", dim=_arg(call, 0, "dim"), cdim=_arg(inner, 0, "dim"), other=ast.unparse(base.left))
+                if row is None:
+                    continue
+                row.update(file=rel, func=qual, declared=declared, node=call, line=call.lineno, cls=cls)
+                rows.append(row)
+    return rows
+
+
+def _summed_dim(call, parents):
+    """is the product summed: chained `.sum(D)` or `name = <product>` followed by `name = name.sum(D)` -> (D node, summed?)"""
+    par = parents.get(call)
+    if isinstance(par, ast.Attribute) and par.attr == "sum" and isinstance(parents.get(par), ast.Call):
+        sc = parents[par]
+        return _arg(sc, 0, "dim"), True
+    st = par
+    while st is not None and not isinstance(st, ast.stmt):
+        st = parents.get(st)
+    if isinstance(st, ast.Assign) and st.value is call and len(st.targets) == 1 and isinstance(st.targets[0], ast.Name):
+        sib = getattr(parents.get(st), "body", [])
+        if st in sib and sib.index(st) + 1 < len(sib):
+            v = getattr(sib[sib.index(st) + 1], "value", None)
+            if isinstance(v, ast.Call) and _meth_name(v) == "sum" and ast.unparse(v.func.value) == st.targets[0].id:
+                return _arg(v, 0, "dim"), True
+    return None, False
+
+
+def _coil_sites_text():
+    from ..gen import REPO
+
+    rows = scan_coil_sites(REPO)
+    out = []
+    for r in rows:
+        dim, _ = _dim_form(r.get("dim"))
+        cdim, _ = _dim_form(r.get("cdim"))
+        decl = "none" if r["declared"] is None else f"some ({r['declared']})"
+        out.append(f"  ⟨{_lean_str(r['file'])}, {_lean_str(r['func'])}, .{r['kind']}, {dim}, {cdim}, {decl}, "
+                   f"{_lean_str(r.get('conj', ''))}, {_lean_str(r.get('unsq', ''))}, {_lean_str(r.get('other', '')[:120])}⟩")
+    kinds = {}
+    for r in rows:
+        kinds[r["kind"]] = kinds.get(r["kind"], 0) + 1
+    return "def coil_sites : List Cx.CoilSite := [\n" + ",\n".join(out) + "]\n", f"translated ({len(rows)} sites: {kinds})"
+
+
 def _c02_extra():
     from ..gen import REPO, find_function, parse_file
 
@@ -304,6 +477,13 @@ def _c02_extra():
     emit("root_sum_of_squares_sq", lambda: _rss_def(find_function(tree, "root_sum_of_squares")),
          f"def root_sum_of_squares_sq {_RVARS} (data : Tensor R) (dim : Int) (complex_dim : Int) : Tensor R := "
          "Cx.rssSqReal data dim complex_dim\n")
+    try:
+        text, st = _coil_sites_text()
+        out.append(f"/-- translated: every coil-operator call site / inline re-implementation under `direct/` -/\n" + text)
+        status["coil_sites"] = st
+    except Untranslatable as e:
+        out.append(f"/-- SKIPPED ({e}) -/\ndef coil_sites : List Cx.CoilSite := []\n")
+        status["coil_sites"] = f"skipped: {e}"
     for fname in ("complex_multiplication", "complex_division"):
         emit(f"{fname}_cat", lambda fname=fname: f"def {fname}_cat : List String := {_cat_order(find_function(tree, fname))}\n",
              f'def {fname}_cat : List String := ["real_part", "imaginary_part"]\n')
